@@ -112,6 +112,11 @@ def generate(tier, seed):
         'p(X/Y) :- X = 7, Y = 2. p(X\\Y) :- X = -7, Y = 2.',
         'p :- not p. q :- not not q. {r}. :- r, not q.',
         'p(X, Y) :- q(X; Y).' if False else 'p(X, Y) :- q(X), q(Y); not r(X, Y).',
+        # variable indices at the limit of usize feed the global-variable counter
+        'p(V18446744073709551615, V1) :- q(V18446744073709551615, V1).',
+        'p(V18446744073709551614, X) :- q(V18446744073709551614), r(X, V0).',
+        'p(V9223372036854775807) :- q(V9223372036854775807, V9223372036854775808).',
+        'p(V00000000000000000001, V1) :- q(V00000000000000000001, V1, V01).',
     ]
     for h in hand:
         add('hand-adversarial', h, ())
